@@ -226,8 +226,11 @@ func TestC12_SharingDense(t *testing.T) {
 		cached2 := nodelite.FileSpec{Tags: []int{x}, Tail: rapid.SampledFrom([]int{9, 4096}).Draw(t, "tail2"), Salt: 0}
 		c := nlhist.Case{Files: []nodelite.FileSpec{cached, local, cached2}}
 		opGen := rapid.Custom(func(t *rapid.T) nlhist.Op {
-			k := rapid.SampledFrom([]string{"fetchA", "fetchA", "fetchC", "fetchC", "uploadB", "uploadB", "pinB", "unpinB", "readA", "gc", "gc", "restart", "deleteB", "deleteA", "deleteC"}).Draw(t, "k")
+			k := rapid.SampledFrom([]string{"fetchA", "fetchA", "fetchC", "fetchC", "uploadB", "uploadB", "pinB", "unpinB", "readA", "gc", "gc", "restart", "deleteB", "deleteA", "deleteC", "uploadA"}).Draw(t, "k")
 			switch k {
+			case "uploadA":
+				// re-upload of the (deleted) cached file; while it is still cached this is the listed finding's shape
+				return nlhist.Op{K: "upload", F: 0}
 			case "deleteA":
 				return nlhist.Op{K: "delete", F: 0}
 			case "deleteC":
@@ -259,6 +262,9 @@ func TestC12_SharingDense(t *testing.T) {
 		// downloads that share it, so that order is drawn with probability 1/2 up front
 		if rapid.Bool().Draw(t, "uploadFirst") {
 			c.Ops = append(c.Ops, nlhist.Op{K: "upload", F: 1})
+		} else if rapid.Bool().Draw(t, "reuploadAfterDelete") {
+			// a cached file that shares chunks with another cached file is deleted and then uploaded
+			c.Ops = append(c.Ops, nlhist.Op{K: "fetch", F: 0}, nlhist.Op{K: "fetch", F: 2}, nlhist.Op{K: "delete", F: 0}, nlhist.Op{K: "upload", F: 0})
 		}
 		c.Ops = append(c.Ops, rapid.SliceOfN(opGen, 2, 12).Draw(t, "ops")...)
 		c.Ops = append(c.Ops, nlhist.Op{K: "gc", Arg: 1})
